@@ -219,24 +219,62 @@ theorem Next.ge_delayed {cfg : Cfg} {view : View} {h' : HState} {it : Iter} {top
 
 /-! ### the carried state -/
 
-theorem atTop_of_failure {h : HState} (hf : h.failure = true) (top : Int) : h.atTop top = h := by
-  simp [HState.atTop, hf]
+theorem entry_eq (h : HState) (top start : Int) :
+    h.entry top start = if (h.finished && !h.failure) || h.retries == 0 then HState.fresh start else h := by
+  unfold HState.entry HState.atTop HState.atStart
+  by_cases hc : (h.finished && !h.failure) = true
+  · simp [hc, HState.fresh]
+  · by_cases hr : h.retries = 0
+    · simp [hc, hr]
+    · simp [hc, hr]
 
-theorem atTop_of_unfinished {h : HState} (hf : h.finished = false) (top : Int) : h.atTop top = h := by
-  simp [HState.atTop, hf]
+theorem entry_of_failure {h : HState} (hf : h.failure = true) (hr : 1 ≤ h.retries) (top start : Int) :
+    h.entry top start = h := by
+  rw [entry_eq]
+  have : h.retries ≠ 0 := by omega
+  simp [hf, this]
 
-theorem not_awakened_of_failure {h : HState} (hf : h.failure = true) (top now : Int) : (h.atTop top).awakened now = false := by
-  rw [atTop_of_failure hf]; simp [HState.awakened, HState.finished, hf]
+theorem entry_of_retrying {h : HState} (hf : h.finished = false) (hr : 1 ≤ h.retries) (top start : Int) :
+    h.entry top start = h := by
+  rw [entry_eq]
+  have : h.retries ≠ 0 := by omega
+  simp [hf, this]
+
+theorem not_awakened_of_failure {h : HState} (hf : h.failure = true) (hr : 1 ≤ h.retries) (top start now : Int) :
+    (h.entry top start).awakened now = false := by
+  rw [entry_of_failure hf hr]; simp [HState.awakened, HState.finished, hf]
 
 /-- the state machine keeps a failure: once failed, every later state is the same failed state -/
-theorem step_of_failure {cfg : Cfg} {h : HState} {it : Iter} (hf : h.failure = true) (hok : it.ok cfg h) :
-    step cfg h it = h ∧ it.res = none := by
-  have hna := not_awakened_of_failure hf it.top it.start
+theorem step_of_failure {cfg : Cfg} {h : HState} {it : Iter} (hf : h.failure = true) (hr : 1 ≤ h.retries)
+    (hok : it.ok cfg h) : step cfg h it = h ∧ it.res = none := by
+  have hna := not_awakened_of_failure hf hr it.top it.start it.start
   have hres : it.res = none := by
     have := hok.2.2.1; rw [hna] at this
-    cases hr : it.res <;> simp [hr] at this ⊢
-  rw [atTop_of_failure hf] at hna
-  exact ⟨by simp [step, hres, atTop_of_failure hf, hna], hres⟩
+    cases hr' : it.res <;> simp [hr'] at this ⊢
+  rw [entry_of_failure hf hr] at hna
+  exact ⟨by simp [step, hres, entry_of_failure hf hr, hna], hres⟩
+
+/-- a finished state has made at least one attempt (so the clock restart never touches it) -/
+theorem foldl_finished_pos (cfg : Cfg) : ∀ (its : List Iter) (h : HState), (h.finished = true → 1 ≤ h.retries) →
+    ((its.foldl (step cfg) h).finished = true → 1 ≤ (its.foldl (step cfg) h).retries) := by
+  intro its
+  induction its with
+  | nil => intro h hh; exact hh
+  | cons it its ih =>
+    intro h hh
+    simp only [List.foldl_cons]
+    apply ih
+    have he : ((h.entry it.top it.start).finished = true → 1 ≤ (h.entry it.top it.start).retries) := by
+      rw [entry_eq]; split
+      · intro hf; simp [HState.fresh, HState.finished] at hf
+      · exact hh
+    unfold step
+    simp only
+    split
+    · intro _; cases classify cfg _ _ _ <;> simp [HState.withOutcome]
+    · split
+      · intro _; simp [HState.withOutcome]
+      · exact he
 
 /-! ### lifting to sequences -/
 
@@ -254,6 +292,11 @@ theorem stateAt_succ {cfg : Cfg} {spawn : Int} {its : List Iter} {n : Nat} {a : 
     have := List.getElem?_eq_getElem hn; rw [this] at ha; exact Option.some.inj ha
   rw [List.take_succ_eq_append_getElem hn, List.foldl_append, hget]
   rfl
+
+theorem stateAt_finished_pos (cfg : Cfg) (spawn : Int) (its : List Iter) (n : Nat)
+    (hf : (stateAt cfg spawn its n).finished = true) : 1 ≤ (stateAt cfg spawn its n).retries := by
+  unfold stateAt at hf ⊢
+  exact foldl_finished_pos cfg _ _ (by intro h; simp [initState, HState.fresh, HState.finished] at h) hf
 
 theorem Chain.step_at {cfg : Cfg} {view : View} :
     ∀ (rest : List Iter) (h : HState) (it : Iter), Chain cfg view h it rest →
@@ -376,12 +419,12 @@ theorem Sched.ready {cfg : Cfg} {view : View} {spawn : Int} {its : List Iter} (h
     have htop := Sched.top_le_start h n its[n] ha
     rw [stateAt_succ ha] at hnext ⊢
     generalize stateAt cfg spawn its n = hs at i1 i2 hnext hoka
-    have t1 : (hs.atTop its[n].top).finished = true → (hs.atTop its[n].top).delayed = none := by
-      unfold HState.atTop; split
+    have t1 : (hs.entry its[n].top its[n].start).finished = true → (hs.entry its[n].top its[n].start).delayed = none := by
+      rw [entry_eq]; split
       · intro _; rfl
       · exact i1
-    have t2 : ∀ d, (hs.atTop its[n].top).delayed = some d → d ≤ its[n].top := by
-      unfold HState.atTop; split
+    have t2 : ∀ d, (hs.entry its[n].top its[n].start).delayed = some d → d ≤ its[n].top := by
+      rw [entry_eq]; split
       · intro d hd; simp [HState.fresh] at hd
       · exact i2
     have hge := hnext.ge_patched
@@ -393,20 +436,20 @@ theorem Sched.ready {cfg : Cfg} {view : View} {spawn : Int} {its : List Iter} (h
       fun x now => ⟨fun _ => rfl, fun d hd => by simp [HState.withOutcome] at hd⟩
     cases hres : its[n].res with
     | none =>
-      by_cases hpc : ((hs.atTop its[n].top).awakened its[n].start && precheckFails cfg (hs.atTop its[n].top) its[n].start) = true
-      · have hst : step cfg hs its[n] = (hs.atTop its[n].top).withOutcome its[n].ended .failed := by
+      by_cases hpc : ((hs.entry its[n].top its[n].start).awakened its[n].start && precheckFails cfg (hs.entry its[n].top its[n].start) its[n].start) = true
+      · have hst : step cfg hs its[n] = (hs.entry its[n].top its[n].start).withOutcome its[n].ended .failed := by
           simp only [step, hres]; rw [if_pos hpc]
         rw [hst]; exact failed_ok _ _
-      · have hst : step cfg hs its[n] = hs.atTop its[n].top := by
+      · have hst : step cfg hs its[n] = hs.entry its[n].top its[n].start := by
           simp only [step, hres]; rw [if_neg hpc]
         rw [hst]
         exact ⟨t1, fun d hd => by have := t2 d hd; omega⟩
     | some r =>
-      have hst : step cfg hs its[n] = (hs.atTop its[n].top).withOutcome its[n].ended
-          (classify cfg (hs.atTop its[n].top).retries (its[n].ended - (hs.atTop its[n].top).started) r) := by
+      have hst : step cfg hs its[n] = (hs.entry its[n].top its[n].start).withOutcome its[n].ended
+          (classify cfg (hs.entry its[n].top its[n].start).retries (its[n].ended - (hs.entry its[n].top its[n].start).started) r) := by
         simp [step, hres]
       rw [hst] at hnext ⊢
-      cases ho : classify cfg (hs.atTop its[n].top).retries (its[n].ended - (hs.atTop its[n].top).started) r with
+      cases ho : classify cfg (hs.entry its[n].top its[n].start).retries (its[n].ended - (hs.entry its[n].top its[n].start).started) r with
       | done => exact ⟨fun _ => rfl, fun d hd => by simp [HState.withOutcome] at hd⟩
       | failed => exact failed_ok _ _
       | retry d0 =>
@@ -417,17 +460,18 @@ theorem Sched.ready {cfg : Cfg} {view : View} {spawn : Int} {its : List Iter} (h
 /-- unless the timer has failed for good, the carried state is awakened when an iteration starts -/
 theorem Sched.awakened {cfg : Cfg} {view : View} {spawn : Int} {its : List Iter} (h : Sched cfg view spawn its)
     (n : Nat) (a : Iter) (ha : its[n]? = some a) (hnf : (stateAt cfg spawn its n).failure = false) :
-    ((stateAt cfg spawn its n).atTop a.top).awakened a.start = true := by
+    ((stateAt cfg spawn its n).entry a.top a.start).awakened a.start = true := by
   obtain ⟨i1, i2⟩ := Sched.ready h n a ha
   have htop := Sched.top_le_start h n a ha
   generalize stateAt cfg spawn its n = hs at i1 i2 hnf
-  unfold HState.atTop
-  by_cases hfin : hs.finished = true
-  · have hs' : hs.success = true := by
-      simp [HState.finished, hnf] at hfin; exact hfin
-    simp [hs', hnf, HState.awakened, HState.sleeping, HState.finished, HState.fresh]
-  · have hfin' : hs.finished = false := by cases hf : hs.finished <;> simp_all
-    simp only [hfin', Bool.false_and, Bool.false_eq_true, if_false]
+  rw [entry_eq]
+  split
+  · simp [HState.awakened, HState.sleeping, HState.finished, HState.fresh]
+  · rename_i hc
+    have hfin' : hs.finished = false := by
+      cases hf : hs.finished with
+      | false => rfl
+      | true => simp [hf, hnf] at hc
     cases hd : hs.delayed with
     | none => simp [HState.awakened, HState.sleeping, hfin', hd]
     | some d =>
@@ -471,8 +515,8 @@ theorem Sched.retries_lt {cfg : Cfg} {view : View} {spawn : Int} {its : List Ite
     have ih' := ih its[n] ha
     rw [stateAt_succ ha]
     generalize stateAt cfg spawn its n = hs at ih'
-    have top_lt : (hs.atTop its[n].top).finished = false → (hs.atTop its[n].top).retries < N := by
-      unfold HState.atTop; split
+    have top_lt : (hs.entry its[n].top its[n].start).finished = false → (hs.entry its[n].top its[n].start).retries < N := by
+      rw [entry_eq]; split
       · intro _; simpa [HState.fresh] using hN
       · exact ih'
     cases hres : its[n].res with
@@ -483,7 +527,7 @@ theorem Sched.retries_lt {cfg : Cfg} {view : View} {spawn : Int} {its : List Ite
       · exact top_lt
     | some r =>
       simp only [step, hres]
-      cases ho : classify cfg (hs.atTop its[n].top).retries (its[n].ended - (hs.atTop its[n].top).started) r with
+      cases ho : classify cfg (hs.entry its[n].top its[n].start).retries (its[n].ended - (hs.entry its[n].top its[n].start).started) r with
       | done => intro hf; simp [HState.withOutcome, HState.finished] at hf
       | failed => intro hf; simp [HState.withOutcome, HState.finished] at hf
       | retry d =>
